@@ -562,6 +562,44 @@ for cls in (Bag, Off):
         pass
     if cls.param['c'].constant is not True or cls().param['c'].constant is not True:
         bad.append('%s: edit_constant on a falsy instance left the class-level constant flag off' % cls.__name__)
+# a watcher callback is ordinary user code: constants stay locked while it runs, however it was fired
+class W(param.Parameterized):
+    c = param.Number(default=1, constant=True)
+    x = param.Number(default=0)
+    e = param.Event()
+for fire in ('set', 'update', 'trigger', 'trigger-event', 'batch', 'update-context'):
+    for level in ('instance', 'class'):
+        WW = type('WW', (W,), {})
+        w = WW()
+        tried = []
+        def cb(*events, w=w, tried=tried):
+            for target in (('c', 99), ('name', 'renamed')):
+                try:
+                    setattr(w, *target)
+                    tried.append('%s rebound' % target[0])
+                except TypeError:
+                    tried.append('refused')
+        (w if level == 'instance' else WW).param.watch(cb, ['x', 'e'])
+        holder = w if level == 'instance' else WW
+        if fire == 'set':
+            holder.x = 1
+        elif fire == 'update':
+            holder.param.update(x=1)
+        elif fire == 'trigger':
+            holder.param.trigger('x')
+        elif fire == 'trigger-event':
+            holder.param.trigger('e')
+        elif fire == 'batch':
+            with param.parameterized.batch_call_watchers(holder):
+                holder.x = 1
+        else:
+            with holder.param.update(x=1):
+                pass
+        if not tried:
+            bad.append('watcher fired by %s (%s level) was not called' % (fire, level))
+        if any(t != 'refused' for t in tried) or w.c != 1:
+            bad.append('inside a watcher fired by %s (%s-level watcher): %s; the constant now holds %r'
+                       % (fire, level, sorted(set(t for t in tried if t != 'refused')), w.c))
 if bad:
     print('REPRODUCED: ' + bad[0]); sys.exit(1)
 print('NOT-REPRODUCED'); sys.exit(0)
